@@ -58,8 +58,6 @@ var allScalars = []K{kString, kBool, kInt32, kSint32, kUint32, kInt64, kSint64, 
 // well-known / library message types (full name, file to import)
 type wkt struct{ name, file string }
 
-// the two Any types come last: they are supported as single fields only (a list / map of Any is
-// a schema error), see wktField
 var supportedWKT = []wkt{
 	{"google.protobuf.Timestamp", "google/protobuf/timestamp.proto"},
 	{"j5.types.date.v1.Date", "j5/types/date/v1/date.proto"},
@@ -401,7 +399,7 @@ func (g *gen) fillMsg(m *gMsg) {
 			case c < 12:
 				f = g.enumField(m, fname(), num())
 			case c < 14:
-				f = g.wktField(m, fname(), num(), false)
+				f = g.wktField(m, fname(), num())
 			case c < 16:
 				f = g.repeatedField(m, fname(), num())
 			case c < 18:
@@ -626,14 +624,8 @@ func (g *gen) enumField(from *gMsg, name string, num int32) *descriptorpb.FieldD
 	return f
 }
 
-// wktField: inCollection = the field becomes a list item / map value, where Any is not supported
-// (chosen only in adversarial sets, rarely).
-func (g *gen) wktField(from *gMsg, name string, num int32, inCollection bool) *descriptorpb.FieldDescriptorProto {
-	n := len(supportedWKT)
-	if inCollection && !(g.adv && g.chance(1, 6)) {
-		n -= 2
-	}
-	w := supportedWKT[g.h.Rng.IntN(n)]
+func (g *gen) wktField(from *gMsg, name string, num int32) *descriptorpb.FieldDescriptorProto {
+	w := supportedWKT[g.h.Rng.IntN(len(supportedWKT))]
 	if g.adv && g.chance(1, 8) {
 		w = oddWKT[g.h.Rng.IntN(len(oddWKT))]
 	}
@@ -658,7 +650,7 @@ func (g *gen) anyValueField(from *gMsg, name string, num int32) *descriptorpb.Fi
 	case c < 8:
 		f = g.enumField(from, name, num)
 	default:
-		f = g.wktField(from, name, num, true)
+		f = g.wktField(from, name, num)
 	}
 	if f == nil {
 		f = g.scalarField(name, num, kString)
